@@ -1106,3 +1106,47 @@ def _smt_invalid(claim):
     sol = z3.Solver()
     sol.add(z3.Not(claim))
     return sol.check() == z3.sat
+
+
+# =================================================================================================
+# grad=False on the six boundary templates (option coverage): a boundary region without gradients
+# =================================================================================================
+@contract("C13", "grad_flag", configs=[dict(cell=ct, coords=("affine" if ct in HI3 else "generic"), **kw) for ct in CELLS for kw in (dict(), dict(only_surface=False))])
+def grad_flag(vk, cfg):
+    """grad=False ("a flag to invoke gradient evaluation"): the boundary template selects the same faces and rotated
+    cells and evaluates the same shape functions at the same face quadrature points as with the default grad=True,
+    but no Jacobian: none of dXdr, drdX, dhdX, dV, dA, normals, tangents exists (nothing stale, nothing made up);
+    grad=True handed in explicitly is the default region"""
+    ct = cfg["cell"]
+    _under_contract(vk, ct)
+    kw = {k: cfg[k] for k in ("only_surface",) if k in cfg}
+    c = build(vk, ct, cfg["coords"], **kw)
+    r1 = c.region
+    snapX = vk.snapshot(c.X)
+    r0 = c.bcls(c.mesh, quadrature=exact_quadrature(vk, c.bcls), grad=False, **kw)
+    rt = c.bcls(c.mesh, quadrature=exact_quadrature(vk, c.bcls), grad=True, **kw)
+    vk.ensures_eq("grad=False/h==h of the default region", r0.h, r1.h, tol=TOL)
+    vk.ensures_eq("grad=False/dhdr==dhdr of the default region", r0.dhdr, r1.dhdr, tol=TOL)
+    vk.ensures_eq("grad=False/points of the boundary mesh==points of the mesh", r0.mesh.points, c.X)
+    vk.frame_unchanged("grad=False/mesh.points untouched", c.mesh.points, snapX)
+    vk.ensures_eq("grad=True given/dA==dA of the default region", rt.dA, r1.dA, tol=TOL)
+    vk.ensures_eq("grad=True given/dhdX==dhdX of the default region", rt.dhdX, r1.dhdX, tol=TOL)
+    # a field on the gradient-free boundary region interpolates the nodal values to the face quadrature points
+    vals = vk.reals("val", (c.n, 1), near=0.3, spread=0.5)
+    f0 = fem.Field(r0, dim=1, values=vals)
+    f1 = fem.Field(r1, dim=1, values=vals)
+    vk.ensures_eq("grad=False/Field.interpolate==that on the default region", f0.interpolate(), f1.interpolate(), tol=TOL)
+    if vk.sym:
+        absent = [nm for nm in ("dXdr", "drdX", "dhdX", "dV", "dA", "normals", "tangents", "d2hdXdX") if hasattr(r0, nm)]
+        vk.ensures_true("grad=False/no Jacobian, no area vectors, normals or tangents", not absent and r0.evaluate_gradient is False, f"present: {absent}", backend="exec")
+        same_sel = (
+            np.array_equal(np.asarray(r0.mesh.cells, dtype=int), np.asarray(r1.mesh.cells, dtype=int))
+            and np.array_equal(np.asarray(r0.mesh.cells_faces, dtype=int), np.asarray(r1.mesh.cells_faces, dtype=int))
+            and np.array_equal(r0._selection, r1._selection)
+            and r0.mesh.cell_type == r1.mesh.cell_type
+            and r0.only_surface == r1.only_surface
+            and r0.ensure_3d == r1.ensure_3d
+        )
+        vk.ensures_true("grad=False/same faces, same rotated cells (mesh.cells, mesh.cells_faces) as the default region", bool(same_sel), f"{np.shape(r0.mesh.cells)}", backend="exec")
+        vk.ensures_true("grad=True given/flag and tables present", rt.evaluate_gradient is True and all(hasattr(rt, nm) for nm in ("dXdr", "drdX", "dhdX", "dV", "dA", "normals", "tangents")), "", backend="exec")
+        vk.canary_bool("grad=False still has dA", not hasattr(r0, "dA"))
